@@ -679,7 +679,7 @@ def run(ck):
                "if it queries a structure holding >= 4 elements (GNAT: and the tree has an internal node); distinct by script text")
     ck.trusted += ["harness/nn.cpp opens `private`/`protected` of the NN headers for its own translation unit to dump tree_, removed_, offset_ and the k-centers RNG state",
                    "model abstractions: element ids instead of addresses, stable merge sort instead of std::sort, Option for +-infinity, sorted lists for the two priority queues",
-                   "GNAT add/split/remove/rebuild/clear are modelled (Model/NNGnatOps.lean) and compared in lock-step: the model's operation on the previous dump, fed the k-centers draws of the real operation, must reproduce the next dump token for token; that they preserve GnatInv is additionally *checked on every dump* (see notes/C10.md for which preservation theorems are proved)"]
+                   "GNAT add/split/remove/rebuild/clear are modelled (Model/NNGnatOps.lean) and compared in lock-step: the model's operation on the previous dump, fed the k-centers draws of the real operation, must reproduce the next dump token for token; that they preserve GnatInv is proved for the model (Props/C10.lean) and additionally *checked on every dump* of the real tree"]
     ck.assumptions += ["the distance function is a metric (integer valued in the runs, so doubles are exact)",
                        "nearest() on an empty structure throws (outside the answer contract); points of the tabulated metric are 0..5"]
     ck.lean_build(LEAN_TARGETS)
@@ -745,17 +745,20 @@ MANIFEST = {
             "nearest of the modelled query code (node queue, answer queue, sibling and radius pruning, equal-key rule) return "
             "exactly the brute-force answer over the live stored copies for every metric on a linearly ordered commutative ring, "
             "every tree satisfying the executable invariant GnatInv and every child visiting order, and never run out of fuel; "
-            "Node::add preserves GnatInv (given what split must establish). Tied to the real templates by lock-step differential "
-            "runs (Linear, SqrtApprox; GNAT add/split/k-centers/remove/rebuild/clear re-executed by the model from the previous "
-            "dump of the real tree with the recorded k-centers draws, dumps compared token for token) and by state injection (the "
-            "model's queries and the executable GnatInv run on dumps of the real GNAT trees after every operation), plus an "
-            "independent brute-force multiset/distance-list oracle on the implementation's own outputs over a parameter grid.",
-    "note": "Trusted: Lean kernel, the three standard axioms, the hand-written model outside what the correspondence explored, "
-            "the harness. That GNAT split / rebuild establish GnatInv and the multiset abstraction is checked on every dump of the "
-            "real tree and by the lock-step comparison, not proved (split_establishes_inv, rebuild_abs, gnat_size_list_abs are "
-            "stated in Props/C10.lean's header; add_/remove_preserves_inv are _partial). F16 (stale removed_ addresses) is fixed "
-            "in /repo (9cd18415f).",
+            "the modelled operations (greedy k-centers for every first centre, split, Node::add, remove incl. the pivot test, "
+            "rebuildDataStructure, add(vector), clear) establish / preserve GnatInv and refine the abstract multiset for every "
+            "operation history and every draw sequence, hence after any history every query equals brute force "
+            "(gnat_size_list_abs, gnat_history_queries_exact). Tied to the real templates by lock-step differential runs (Linear, "
+            "SqrtApprox; the GNAT operations re-executed by the model from the previous dump of the real tree with the recorded "
+            "k-centers draws, dumps compared token for token) and by state injection (the model's queries and the executable "
+            "GnatInv run on dumps of the real GNAT trees after every operation), plus an independent brute-force "
+            "multiset/distance-list oracle on the implementation's own outputs over a parameter grid.",
+    "note": "Trusted: Lean kernel, the three standard axioms, the hand-written model outside what the correspondence explored "
+            "(addresses -> ids, unstable sort, add()'s isRemoved test on the caller's object), the harness. Operation theorems "
+            "assume degree/minDegree/maxDegree >= 1 (minDegree = 0 makes the real split() call kcenters with k = 0: candidate "
+            "finding in notes/C10.md), dist x x = 0 <= dist x y, 0 < eps, and for remove a genuine metric. F16 is fixed in /repo.",
     "technique": "Lean 4 proof (multiset loop invariant over the two priority queues, generic in the k-nearest / radius collector; "
-                 "triangle-inequality pruning lemmas under an executable invariant; refinement to a multiset for the linear "
-                 "structures) + lock-step differential correspondence with state injection",
+                 "triangle-inequality pruning lemmas under an executable invariant; greedy k-centers loop invariant; per-child "
+                 "view of the split loop; refinement to a multiset over operation histories) + lock-step differential "
+                 "correspondence with state injection",
 }
